@@ -8,6 +8,7 @@ from hypothesis import strategies as st
 from vlib import crypt as C
 from vlib import filters as F
 from vlib import pdfwrite as W
+from vlib import runner
 from vlib.runner import Outcome, hyp_search
 
 ID = "C10"
@@ -70,7 +71,7 @@ def _check_objects(doc, case, who, which="enc"):
     """Returns a failure message or None."""
     payloads = case["payloads"]
     xs = case.get("xrefstm")
-    if xs:
+    if xs and not (which == "enc" and "xref-stream-object" in runner.ACTIVE_KNOWN):
         # the cross-reference stream is an indirect object too; it is never encrypted (ISO 32000-1 7.5.8.2)
         try:
             o = doc.getobj(xs["n"])
@@ -114,6 +115,18 @@ def run_case(case):
     classes = list(case["classes"])
     nt = bool(case["nt"])
     desc = case["desc"]
+    # Classifier keys of findings that may be registered in KNOWN_FINDINGS.txt instead of being repaired
+    # (see notes/C10.md).  A registered key removes exactly the sub-check / the cases that exercise that defect.
+    known = runner.ACTIVE_KNOWN
+    if "crypt-filter-default" in known and "identity-by-default" in classes:
+        return Outcome(classes, known="crypt-filter-default")
+    if "stream-dict-strings" in known and "stream-dict-string" in classes:
+        return Outcome(classes, known="stream-dict-strings")
+    opens, wrong = case["opens"], case["wrong"]
+    if "wrong-password-unencodable" in known:
+        wrong = [w for w in wrong if w[0] != "unencodable"]
+    if "password-maps-to-empty" in known and desc["kind"] == "R6":
+        opens = [o for o in opens if o[1] == "" or C.prep_password(o[1], 6) != b""]
     lg = logging.getLogger("pdfminer")
     old_level = lg.level
     lg.setLevel(logging.ERROR)
@@ -128,7 +141,7 @@ def run_case(case):
             raise RuntimeError("harness: page text %r not extracted from the original: %r" % (case["text"], text0))
         pdf = case["pdf"]
         # ---- passwords that open
-        for label, pw in case["opens"]:
+        for label, pw in opens:
             who = "%s password %r" % (label, pw)
             try:
                 doc = _open(pdf, pw)
@@ -165,7 +178,7 @@ def run_case(case):
             if text != text0:
                 return Outcome(classes, nt, fail="%s: extract_text %r, original %r; desc=%r" % (who, text[:80], text0[:80], desc))
         # ---- every other password is rejected with PDFPasswordIncorrect
-        for label, pw in case["wrong"]:
+        for label, pw in wrong:
             try:
                 _open(pdf, pw)
             except PDFPasswordIncorrect:
@@ -564,4 +577,4 @@ def plan(tier):
 
 
 def run_shard(spec, ctx):
-    return hyp_search(ctx, cases(spec["kind"]), run_case, spec["n"])
+    return hyp_search(ctx, cases(spec["kind"]), run_case, spec["n"], shrink_budget=120 if ctx.tier == "quick" else 1500)
